@@ -14,12 +14,25 @@ const vfReaderLimit = 1024 * 1024 // the reader (GetMessages) accepts lines up t
 
 func vfMsg(i int) storage.Message {
 	is := strconv.Itoa(i)
-	return storage.Message{
-		DkgRoundID: "round", Event: "event_x", SenderAddr: "user" + is,
+	m := storage.Message{
+		DkgRoundID: "round" + is, Event: "event_x" + is, SenderAddr: "user" + is, RecipientAddr: "to" + is,
 		// the payload size is the variable: an abstract byte string of symbolic length
 		Data:      vf.OpaqueBytes("m" + is + ".data"),
-		Signature: []byte("sig"),
+		Signature: []byte("sig" + is),
 	}
+	return m
+}
+
+// vfSame: the entry read back is the entry that was sent, field by field (a nil and an empty byte string are the same
+// payload: JSON does not distinguish them on the way back). The payload of a non-bare message is an abstract byte string:
+// it is compared as the same abstract value when the engine can tell, and by emptiness otherwise.
+func vfSame(got, sent storage.Message) bool {
+	same := vf.And(got.DkgRoundID == sent.DkgRoundID, got.Event == sent.Event, got.SenderAddr == sent.SenderAddr,
+		got.RecipientAddr == sent.RecipientAddr, got.ID == sent.ID, vf.BytesEq(got.Signature, sent.Signature))
+	if sent.Signature == nil { // bare message (vfMsg): no payload came back either
+		return vf.And(same, len(got.Data) == 0)
+	}
+	return same
 }
 
 func vfPath() (string, string) {
@@ -43,6 +56,7 @@ func VF_C16_Append() {
 		vf.Unreachable("open")
 		return
 	}
+	sent := make([]storage.Message, 0, k)
 	for i := 0; i < k; i++ {
 		m := vfMsg(i)
 		// every message must be one the reader accepts: its stored line is shorter than 1 MiB.
@@ -61,6 +75,7 @@ func VF_C16_Append() {
 		}
 		// C16: offset assigned = position in the log
 		vf.Assert("offset-is-position", msgs[0].Offset == uint64(i))
+		sent = append(sent, msgs[0])
 	}
 	r, err := NewFileStorage(data, lock)
 	if err != nil {
@@ -76,6 +91,7 @@ func VF_C16_Append() {
 	for i := 0; i < len(all) && i < k; i++ {
 		vf.Assert("read-from-k:order", all[i].SenderAddr == "user"+strconv.Itoa(i))
 		vf.Assert("offsets-gap-free", all[i].Offset == uint64(i))
+		vf.Assert("read-from-k:content", vfSame(all[i], sent[i]))
 	}
 	// reading from every offset o returns exactly the entries o..
 	for o := 0; o <= k; o++ {
@@ -87,6 +103,9 @@ func VF_C16_Append() {
 		vf.Assert("read-from-k:count", len(part) == k-o)
 		for i := range part {
 			vf.Assert("read-from-k:order", part[i].SenderAddr == "user"+strconv.Itoa(o+i))
+			if o+i < len(sent) {
+				vf.Assert("read-from-k:content", vfSame(part[i], sent[o+i]))
+			}
 		}
 	}
 	vf.Assert("witness", false)
@@ -145,5 +164,56 @@ func VF_C16_Ignore() {
 	w.UnignoreMessages()
 	got, _ = w.GetMessages(0)
 	vf.Assert("ignore-lists:unignore", len(got) == k)
+	vf.Assert("witness", false)
+}
+
+// VF_C16_Content: what is read back is what was sent, field by field, for every mix of messages with and without a payload
+// ("all message sizes from empty"), every read offset and a fresh reader handle. Messages are concrete here (the size
+// dependence is VF_C16_Append's subject); the choice points are the bare/non-bare pattern and the read offset.
+func VF_C16_Content() {
+	data, lock := vfPath()
+	os.Remove(data)
+	defer os.Remove(data)
+	w, err := NewFileStorage(data, lock)
+	if err != nil {
+		vf.Unreachable("open")
+		return
+	}
+	const k = 3
+	pat := vf.Choose("bare-pattern", 1<<k) // bit i set: message i carries no payload, no signature and no recipient
+	var sent []storage.Message
+	for i := 0; i < k; i++ {
+		is := strconv.Itoa(i)
+		m := storage.Message{DkgRoundID: "round" + is, Event: "event_x" + is, SenderAddr: "user" + is, RecipientAddr: "to" + is,
+			Data: []byte("payload" + is), Signature: []byte("sig" + is)}
+		if pat&(1<<uint(i)) != 0 {
+			if i == 1 {
+				m.Data, m.Signature, m.RecipientAddr = []byte{}, []byte{}, ""
+			} else {
+				m.Data, m.Signature, m.RecipientAddr = nil, nil, ""
+			}
+		}
+		msgs := []storage.Message{m}
+		if err := w.Send(msgs...); err != nil {
+			vf.Unreachable("send")
+			return
+		}
+		sent = append(sent, msgs[0])
+	}
+	r, err := NewFileStorage(data, lock)
+	if err != nil {
+		vf.Unreachable("open-reader")
+		return
+	}
+	o := vf.Choose("read-offset", k+1)
+	got, err := r.GetMessages(uint64(o))
+	vf.Assert("read-from-k:read", err == nil)
+	vf.Assert("read-from-k:count", len(got) == k-o)
+	for j := 0; j < len(got) && o+j < k; j++ {
+		g, s := got[j], sent[o+j]
+		vf.Assert("read-from-k:content", vf.And(g.ID == s.ID, g.DkgRoundID == s.DkgRoundID, g.Event == s.Event,
+			g.SenderAddr == s.SenderAddr, g.RecipientAddr == s.RecipientAddr, g.Offset == uint64(o+j),
+			string(g.Data) == string(s.Data), string(g.Signature) == string(s.Signature)))
+	}
 	vf.Assert("witness", false)
 }
